@@ -41,10 +41,10 @@ const (
 	// of the stream by any reader; a file truncated inside it is a
 	// well-formed shorter object.
 	BodyEOLEndstream BodyKind = "eolendstream"
-	BodyEndobj    BodyKind = "endobj"    // contains the word endobj (also directly after an EOL)
-	BodyMidHeader BodyKind = "midheader" // contains "7 0 obj" in the middle of a line (never line-initial)
-	BodyEmpty     BodyKind = "empty"     // zero bytes
-	BodyBig       BodyKind = "big"       // > 1024 bytes (the Writer emits the dictionary before the data is complete)
+	BodyEndobj       BodyKind = "endobj"    // contains the word endobj (also directly after an EOL)
+	BodyMidHeader    BodyKind = "midheader" // contains "7 0 obj" in the middle of a line (never line-initial)
+	BodyEmpty        BodyKind = "empty"     // zero bytes
+	BodyBig          BodyKind = "big"       // > 1024 bytes (the Writer emits the dictionary before the data is complete)
 )
 
 // AllBodies lists every body kind.
